@@ -311,7 +311,7 @@ def campaigns(tier):
     return [
         Campaign("family", body_family, enumerate=enum_family(tier), quick=0, thorough=0, shards_quick=16, exhaustive=True,
                  describe="fixed family x storage x all kill points / torn writes / raise points (+ sampled second crashes)"),
-        Campaign("generated", body_generated, gen, quick=16, thorough=320, shards_quick=16,
+        Campaign("generated", body_generated, gen, quick=10, thorough=320, shards_quick=10,
                  describe="generated MapPrograms x all kill points or torn/raise points"),
     ]  # fmt: skip
 
